@@ -120,16 +120,10 @@ def mods():
 
 import math
 def canon_float(x):
-    if x != x: return "Fnan"
-    if x in (math.inf, -math.inf): return "Finf" if x > 0 else "F-inf"
-    if x == 0: return "F-0" if math.copysign(1, x) < 0 else "F0"
-    m, e = math.frexp(x); m = int(m * 2**53); e -= 53
-    while m % 2 == 0: m //= 2; e += 1
-    return f"F{m}p{e}"
+    """how a real prints: Python's repr - the model prints the same text (FloatText.repr_float), so printed reals are compared as they are"""
+    return repr(float(x))
 _FL = re.compile(r"(?<![\w.'])-?(?:\d+\.\d+(?:e[+-]?\d+)?|\d+e[+-]?\d+|inf|nan)(?![\w.'])")
-# the imaginary part of a printed complex number: a real directly followed by "i" (its sign is printed separately: "-" + str(abs(im)))
-_FLI = re.compile(r"(?<![\w.'])(?:\d+\.\d+(?:e[+-]?\d+)?|\d+e[+-]?\d+|inf|nan)(?=i(?!\w))")
-def canon_floats(s): return _FLI.sub(lambda m: canon_float(float(m.group(0))), _FL.sub(lambda m: canon_float(float(m.group(0))), s))
+def canon_floats(s): return s          # kept for callers: no rewriting of printed reals any more
 
 def host_site(e):
     fr = [f for f in traceback.extract_tb(e.__traceback__) if "/pbhhg_py/" in f.filename]
